@@ -694,7 +694,10 @@ fn harvest<'a>(ctx: &mut Ctx, entries: &'a [Entry]) -> Harvest<'a> {
             ctx.label("ctor_seeds_not_round_tripped", &format!("{} {}: unknown type", name, origin));
             continue;
         };
-        ctx.count("ctor_seeds", 1);
+        // every shard harvests the same seeds: count them once
+        if ctx.shard.0 == 0 {
+            ctx.count("ctor_seeds", 1);
+        }
         let n = node_count(&j);
         h.seeds[ti].add(&j, n, &origin, true);
         h.walk(&j, "", &origin, true);
